@@ -67,11 +67,15 @@ package main
 // replica exists, from the first known replica's server; a wanted slot with no
 // replica anywhere makes the block "lost".  "Under-replicated" is sticky over
 // the storage classes (once any class is short, nothing is trashed).
-//@ func ChangeSet.AddTrash trusted
+//@ func ChangeSet.AddTrash property C05
 //@   modifies ChangeSet.Trashes mem:Trash
-//@ func ChangeSet.AddPull trusted
+//@   ensures len(cs.Trashes) == old(len(cs.Trashes)) + 1 && cs.Trashes[len(cs.Trashes)-1] == t
+//@   ensures forall k int :: 0 <= k && k < old(len(cs.Trashes)) ==> cs.Trashes[k] == old(cs.Trashes[k])
+//@ func ChangeSet.AddPull property C05
 //@   modifies ChangeSet.Pulls mem:Pull
-//@ func computeBlockState trusted
+//@   ensures len(cs.Pulls) == old(len(cs.Pulls)) + 1 && cs.Pulls[len(cs.Pulls)-1] == p
+//@   ensures forall k int :: 0 <= k && k < old(len(cs.Pulls)) ==> cs.Pulls[k] == old(cs.Pulls[k])
+//@ func computeBlockState property C05
 //@   modifies nothing
 //@ func rendezvousLess trusted pure
 //@   modifies nothing
